@@ -6,6 +6,7 @@ import Iec.Drv.Dispatch
 import Iec.Drv.Locks
 import Iec.Drv.Link101
 import Iec.Drv.Q101
+import Iec.Drv.FileSrv
 /-
 iecdrv — line-protocol driver: one operation per input line, one canonical result
 line per operation.  The C harnesses execute the same lines on the real code; the
@@ -19,6 +20,7 @@ structure DrvState where
   cli : Iec.Drv.Cli104.St := {}
   ll : Iec.Drv.Link101.St := {}
   q : Option Iec.Q101.Q := none
+  fs : Iec.Drv.FileSrv.St := {}
 
 def dispatch (st : DrvState) (ws : List String) : DrvState × String :=
   match ws with
@@ -48,7 +50,10 @@ def dispatch (st : DrvState) (ws : List String) : DrvState × String :=
                   | none =>
                     match Iec.Drv.Q101.handle st.q ws with
                     | some (a, s) => ({ st with q := a }, s)
-                    | none => (st, "bad-op")
+                    | none =>
+                      match Iec.Drv.FileSrv.handle st.fs ws with
+                      | some (a, s) => ({ st with fs := a }, s)
+                      | none => (st, "bad-op")
 
 partial def loop (h : IO.FS.Stream) (out : IO.FS.Stream) (st : DrvState) : IO Unit := do
   let line ← h.getLine
